@@ -8,6 +8,11 @@ import Verif.C17.Model
 namespace Verif.C17
 open Relation
 
+/-- normaliser-free core of `descendants` (what `descN` computes on stored identifiers) -/
+def descF : Nat → AL (List Id) → Id → List Id
+  | 0, _, _ => []
+  | n + 1, loer, x => (childrenOf loer x).flatMap (fun c => c :: descF n loer c)
+
 /-! ### association lists -/
 
 theorem keys_cons {β : Type} (k : Id) (v : β) (d : AL β) : keys ((k, v) :: d) = k :: keys d := rfl
@@ -710,5 +715,124 @@ theorem any_mem_comm (A B : List Id) :
   simp only [List.any_eq_true, decide_eq_true_eq]
   constructor <;> rintro ⟨x, h1, h2⟩ <;> exact ⟨x, h2, h1⟩
 
+
+/-! ### the literal `descN` agrees with the core on normalised children -/
+
+theorem flatMap_congr_mem {α β : Type} {l : List α} {f g : α → List β} (h : ∀ a ∈ l, f a = g a) :
+    l.flatMap f = l.flatMap g := by
+  induction l with
+  | nil => rfl
+  | cons a l ih =>
+    rw [List.flatMap_cons, List.flatMap_cons, h a List.mem_cons_self,
+      ih (fun b hb => h b (List.mem_cons_of_mem _ hb))]
+
+theorem descN_eq_descF {norm : Id → Id} {loer : AL (List Id)}
+    (hfix : ∀ p c, c ∈ childrenOf loer p → norm c = c) (n : Nat) :
+    ∀ x, descN norm n loer x = descF n loer (norm x) := by
+  induction n with
+  | zero => intro x; rfl
+  | succ n ih =>
+    intro x
+    simp only [descN, descF]
+    apply flatMap_congr_mem
+    intro c hc
+    rw [ih c, hfix _ _ hc]
+
+/-! ### which keys an update can add -/
+
+theorem keys_cons' {β : Type} (e : Id × β) (d : AL β) : keys (e :: d) = e.1 :: keys d := rfl
+
+theorem insertOne_keys {st st' : St} {e : Id × List Id} (h : insertOne st e = .ok st') :
+    keys st'.1 = e.1 :: keys st.1 := by
+  unfold insertOne at h
+  split at h
+  · cases h
+  · split at h
+    · cases h; rfl
+    · cases h
+
+theorem insertAll_keys (es : AL (List Id)) : ∀ (st st' : St), insertAll st es = .ok st' →
+    ∀ x, x ∈ keys st'.1 → x ∈ keys es ∨ x ∈ keys st.1 := by
+  induction es with
+  | nil => intro st st' h x hx; simp only [insertAll] at h; cases h; exact Or.inr hx
+  | cons e es ih =>
+    intro st st' h x hx
+    simp only [insertAll] at h
+    split at h
+    · cases h
+    · rename_i st1 h1
+      rcases ih st1 st' h x hx with hx | hx
+      · exact Or.inl (by rw [keys_cons']; exact List.mem_cons_of_mem _ hx)
+      · rw [insertOne_keys h1] at hx
+        rcases List.mem_cons.1 hx with hx | hx
+        · exact Or.inl (by rw [keys_cons', hx]; exact List.mem_cons_self)
+        · exact Or.inr hx
+
+theorem keys_filter_subset {β : Type} {l : AL β} (p : Id × β → Bool) {x : Id}
+    (h : x ∈ keys (l.filter p)) : x ∈ keys l :=
+  (List.Sublist.map Prod.fst (List.filter_sublist (p := p) (l := l))).subset h
+
+theorem loop_keys (n : Nat) : ∀ (sub : AL (List Id)) (st st' : St), loop n st sub = .ok st' →
+    ∀ x, x ∈ keys st'.1 → x ∈ keys sub ∨ x ∈ keys st.1 := by
+  induction n with
+  | zero =>
+    intro sub st st' h x hx
+    cases sub with
+    | nil => simp only [loop] at h; cases h; exact Or.inr hx
+    | cons e es => simp [loop] at h
+  | succ n ih =>
+    intro sub st st' h x hx
+    cases sub with
+    | nil => simp only [loop] at h; cases h; exact Or.inr hx
+    | cons e es =>
+      simp only [loop] at h
+      split at h
+      · cases h
+      · split at h
+        · cases h
+        · rename_i st1 h1
+          rcases ih _ st1 st' h x hx with hx | hx
+          · exact Or.inl (keys_filter_subset _ hx)
+          · rcases insertAll_keys _ st st1 h1 x hx with hx | hx
+            · exact Or.inl (keys_filter_subset _ hx)
+            · exact Or.inr hx
+
+theorem foldl_dictSet_keys {α β : Type} (f : α → Id) (g : α → β) (Q : Id → Prop) (hQ : ∀ e, Q (f e))
+    (raw : List α) : ∀ d : AL β, (∀ k ∈ keys d, Q k) →
+    ∀ k ∈ keys (raw.foldl (fun d e => dictSet d (f e) (g e)) d), Q k := by
+  induction raw with
+  | nil => intro d h; exact h
+  | cons e raw ih =>
+    intro d h
+    rw [List.foldl_cons]
+    apply ih
+    intro k hk
+    rw [keys_dictSet] at hk
+    split at hk
+    · exact h k hk
+    · rcases List.mem_append.1 hk with hk | hk
+      · exact h k hk
+      · simp only [List.mem_singleton] at hk; rw [hk]; exact hQ e
+
+theorem normalizeSub_keys_normed (norm : Id → Id) (raw : List (Id × PSpec)) :
+    ∀ k ∈ keys (normalizeSub norm raw), ∃ x, norm x = k :=
+  foldl_dictSet_keys (fun (e : Id × PSpec) => norm e.1) (fun (e : Id × PSpec) => (specParents e.2).map norm)
+    (fun k => ∃ x, norm x = k) (fun e => ⟨e.1, rfl⟩) raw [] (by simp [keys])
+
+/-! ### `update` sees a batch only through its normalised spelling -/
+
+/-- what `_normalize_update` keeps of a batch entry -/
+def entryKey (norm : Id → Id) (e : Id × PSpec) : Id × List Id := (norm e.1, (specParents e.2).map norm)
+
+/-- what `_normalize_update` keeps of a data entry -/
+def datKey (norm : Id → Id) (e : Id × Dat) : Id × Dat := (norm e.1, e.2)
+
+theorem normalizeSub_eq (norm : Id → Id) (raw : List (Id × PSpec)) :
+    normalizeSub norm raw = (raw.map (entryKey norm)).foldl (fun d k => dictSet d k.1 k.2) [] := by
+  unfold normalizeSub; rw [List.foldl_map]; rfl
+
+theorem normalizeDat_eq (norm : Id → Id) (raw : List (Id × Dat)) :
+    normalizeDat norm raw = (raw.map (datKey norm)).foldl (fun d k => dictSet d k.1 k.2) [] := by
+  unfold normalizeDat; rw [List.foldl_map]; rfl
 
 end Verif.C17
